@@ -143,12 +143,18 @@ def falsify_C04(ctx):
                 sigma = sigma[cut:] + [False] * cut
             else:
                 rels = [releases_for(c["arr"], horizon - 200, rng, sync=(rep % 2 == 0)) if c["arr"] is not None else [] for c in cbs]
-            tr = [] if (kind == "tm" and rep < 2) else None
+            tr = [] if rep < 2 else None
             done = ros_sim.simulate_executor(cbs, rels, sigma, chains, trace=tr)
             if tr is not None:
                 # Spec validation: the executor model's runs satisfy the schedule-level Spec over
-                # which `timer_sound` is proved
-                viol = ros_sim.check_timer_legal(cbs, rels, sigma, tr, target[1])
+                # which `timer_safe` / `polling_point_safe` / `chain_safe` are proved (for a chain:
+                # every callback instance is attributed the arrival time of its chain instance)
+                if kind == "ch":
+                    first, last = target[1], target[2]
+                    rels_src = [list(rels[first]) if first <= x <= last else rels[x] for x in range(len(cbs))]
+                    viol = ros_sim.check_timer_legal(cbs, rels_src, sigma, tr, last, all_others=True)
+                else:
+                    viol = ros_sim.check_timer_legal(cbs, rels, sigma, tr, target[1], all_others=(kind == "pp"))
                 dist["timer_spec_checked_runs"] = dist.get("timer_spec_checked_runs", 0) + 1
                 if viol:
                     spec_viol.append({"op": op, "clauses": viol})
